@@ -18,6 +18,13 @@ step of same-object histories evaluate -> mutate the parameters -> evaluate, for
 to change parameters (see RULE); the oracle is always computed from the CURRENT parameters (the values written, or, for
 mutations that go through library code, the values the networks' public attributes report afterwards).
 
+"... the unnormalised probabilities the model reports and SAMPLES FROM": besides the reported probabilities, the Bernoulli
+probabilities that DensityMatrix.sample / rbm_am.gibbs_steps hand to torch in every step of a k-step chain are observed (the draws
+are scripted, one batch row per path of the chain), for k = 1, 2, 3 and several steps, on fresh and aged objects: every hidden /
+auxiliary / visible conditional used must be the exact conditional of the purified joint distribution (brute-force marginals of the
+numpy table exp(b.v + c.h + d.a + h.W.v + a.U.v)), and the k-step law of the returned sample built from the observed probabilities
+must leave diag(rho) / trace(rho) of the numpy oracle invariant (see the section "SAMPLES FROM" below).
+
 "Every architecture" is taken literally: a fixed first block evaluates each of the 64 shapes num_visible 1..4 x num_hidden 1..4 x
 num_aux 1..4 once (a formula written for num_hidden = num_aux = num_visible can go wrong only in an asymmetric one, e.g. a
 shortcut taken when num_hidden + num_aux < num_visible), on objects built through every construction path."""
@@ -25,7 +32,22 @@ import itertools, math
 import numpy as np
 import gen
 
-RULE = ("ARCHITECTURE SWEEP (fixed first block, both tiers): EVERY architecture of the quantifier, num_visible 1..4 x num_hidden 1..4 x "
+RULE = ("SAMPLES FROM (runs first, both tiers): fixed cases nv=2 x nh 1..2 x na 1..2 with deterministic parameters (visible-auxiliary "
+        "weights up to 2, every bias non-zero), then a random stream (quick: 10 shapes in 1..3 + one with a size-4 layer; thorough: + 30 of "
+        "the 64 shapes; regimes default / large_bias; construction paths in rotation): ONE DensityMatrix per case, a first parameter "
+        "setting written into the fresh object and a second one written in place into the aged one; per setting the sampler is called "
+        "with k = 2, 3 FIRST (a fresh object's first call has k >= 2), then 1 and several (4..9), through DensityMatrix.sample(k, "
+        "initial_state=, overwrite=) , sample(k, num_samples=) and rbm_am.gibbs_steps(k, v, overwrite=), overwrite both ways, (1, nv) "
+        "one-row batches and many-row batches; torch's Bernoulli entry points are wrapped during the call: the probability tensor of "
+        "every draw is recorded and the draw is replaced by a scripted one; every k whose chain has <= 20000 (quick random) / 140000 "
+        "(fixed, thorough) paths v0,h1,a1,v1,...,vk is ENUMERATED with one batch row per path (shuffled), the others get 257 / 64 / 1 random "
+        "paths; the k = 2 / 3 enumerations are repeated at the end on the aged object with the same batch shapes; demanded: (S1, S2) "
+        "every hidden / auxiliary / visible probability used == the brute-force conditional of the joint table to 1e-9, (S3) "
+        "diag(rho)/trace(rho) of the oracle times the k-step law of the RETURNED rows built from the observed probabilities == "
+        "diag(rho)/trace(rho) to 1e-9 (measured on the unchanged tree: 2e-15); a sampler whose draws cannot be read this way is decided "
+        "by 200000 chains started in diag(rho)/trace(rho) (must follow it after k steps) and 100000 chains from each basis state (must "
+        "follow the exact k-step block-Gibbs law T^k), Hoeffding radius for 1e-9 per cell, for up to three k; "
+        "ARCHITECTURE SWEEP (fixed block, both tiers): EVERY architecture of the quantifier, num_visible 1..4 x num_hidden 1..4 x "
         "num_aux 1..4 = 64 shapes, once each with the full evaluation below (all ten parameter tensors random, every bias non-zero, "
         "phase-net auxiliary bias 0), regimes default / large_bias / branch, the CONSTRUCTION PATH (positional sizes, keyword sizes, "
         "sizes left to their defaults, module=<PurificationRBM> whose copy becomes the phase net, DensityMatrix.autoload(file), a fresh "
@@ -76,6 +98,10 @@ RULE = ("ARCHITECTURE SWEEP (fixed first block, both tiers): EVERY architecture 
         "a case is (regime, nv, nh, na, parameter draw, history step); "
         "non-trivial := all biases non-zero, amplitude aux bias != 0 and U_mu != 0")
 ASSUMPTIONS = ["torch exp/log/sqrt/atan2/softplus/logsumexp/matmul implement the real functions up to rounding",
+               "samples-from relation: torch.bernoulli(p) / Tensor.bernoulli_(p) return independent 0/1 draws with P(1) = p per entry "
+               "(trusted), and the sampler draws through these Python entry points (otherwise the statistical invariance test decides); "
+               "which k steps are run and what happens to the caller's start tensor is property C05's subject, here only the law of "
+               "the returned sample matters",
                "parameter draws avoid the measure-zero singular points 1 + exp(z_k) = 0 of the code's log/atan2 "
                "(x_k = 0 and y_k = pi mod 2 pi), where the partial-trace theorem has its guard",
                "a parameter setting is evaluated when its results are representable: log(trace of rho) <= 700 (the largest "
@@ -1364,7 +1390,480 @@ def one_case(ctx, nv, nh, na, zero_bias=False, regime="default", ways=(), big=Fa
     run_history(ctx, nv, nh, na, steps, big_steps=((0, len(steps) - 1) if big else ()), zero_bias=zero_bias, construct=construct)
 
 
+# ------------------------------------------------------------------ "... and SAMPLES FROM": the sampler's own Bernoulli probabilities
+# The statement's second clause says the diagonal of rho is the unnormalised distribution the model samples from.  What the
+# model samples from is decided by the Bernoulli probabilities DensityMatrix.sample / rbm_am.gibbs_steps hand to torch at every
+# step of the k-step chain.  They are OBSERVED (torch.bernoulli / Tensor.bernoulli / Tensor.bernoulli_ are wrapped for the time
+# of one call; the probability tensor of every draw is recorded) while the draws themselves are SCRIPTED: row r of the batch is
+# forced along one predetermined path (h_1, a_1, v_1, ..., h_k, a_k, v_k), so that with one row per path the probabilities of
+# every path of the k-step chain from every start state are seen, whatever they depend on (the current visible state only, as
+# they should, or also on earlier steps / a buffer that lives across steps or calls).  Demands:
+#   S1  each hidden / auxiliary conditional used in step t equals the exact conditional of the purified joint distribution
+#       p(v, h, a) ~ exp(b.v + c.h + d.a + h.W.v + a.U.v) given the visible state of step t-1 (brute-force marginals, numpy);
+#   S2  each visible conditional used in step t equals the exact conditional given the (h, a) DRAWN in step t;
+#   S3  the law of the RETURNED sample given the start state, K[i, j] = sum over the scripted paths from i that return j of the
+#       product of the observed Bernoulli probabilities along the path, leaves diag(rho) / trace(rho) of the independent oracle
+#       (auxiliary units summed in purified_state, nothing of the sampler's code) invariant to 1e-9: started in the reported
+#       distribution, the sampler stays in it.  k = 1, 2, 3 and several steps, fresh and aged objects.
+SAMPLING_RT, SAMPLING_AT = 1e-9, 1e-12
+ENUM_LIMIT_QUICK, ENUM_LIMIT_FIXED = 20000, 140000
+
+
+def bits_arr(n):
+    return np.array(list(itertools.product([0.0, 1.0], repeat=n)), dtype=float).reshape(2 ** n, n)
+
+
+def rows_index(x):
+    x = np.asarray(x, dtype=float)
+    return (x @ (2.0 ** np.arange(x.shape[1] - 1, -1, -1))).astype(int) if x.shape[1] else np.zeros(len(x), dtype=int)
+
+
+def _lse(x, axis):
+    m = np.max(x, axis=axis, keepdims=True)
+    return np.squeeze(m, axis=axis) + np.log(np.sum(np.exp(x - m), axis=axis))
+
+
+class JointOracle:
+    """The purified joint distribution of the amplitude network over (visible, hidden, auxiliary) configurations as a table,
+    from the raw parameters; conditionals by brute-force marginalisation of the table (no sigmoid formula), the diagonal of
+    rho / its trace from purified_state (the oracle of the matrix relations above)."""
+
+    def __init__(self, am, ph):
+        W, U, b, c, d = (np.asarray(x, dtype=float) for x in am)
+        self.nv, self.nh, self.na = len(b), len(c), len(d)
+        V, H, A = bits_arr(self.nv), bits_arr(self.nh), bits_arr(self.na)
+        self.V, self.H, self.A = V, H, A
+        self.logJ = ((V @ b)[:, None, None] + (H @ c)[None, :, None] + (A @ d)[None, None, :]
+                     + (H @ W @ V.T).T[:, :, None] + (A @ U @ V.T).T[:, None, :])            # (2^nv, 2^nh, 2^na)
+        logp, _, _ = purified_state(am, ph, V)                                                 # log p_lambda(s, a), hidden units traced
+        lmarg = _lse(logp, 1)                                                                  # log rho(s, s)
+        self.p = np.exp(lmarg - _lse(lmarg, 0))                                                # diag(rho) / trace(rho)
+        # self-consistency of the two oracles (pure rounding): the table's hidden sum is purified_state's log p(s, a)
+        assert np.allclose(_lse(self.logJ, 1), logp, rtol=1e-10, atol=1e-9), "C02 harness: joint table != purified_state"
+        lh, la = _lse(self.logJ, 2), _lse(self.logJ, 1)                                        # (2^nv, 2^nh), (2^nv, 2^na)
+        self.Ph = np.exp(lh - _lse(lh, 1)[:, None])                                            # P(h | v)
+        self.Pa = np.exp(la - _lse(la, 1)[:, None])                                            # P(a | v)
+        self.ph1, self.pa1 = self.Ph @ H, self.Pa @ A                                          # P(h_j = 1 | v), P(a_j = 1 | v)
+        lv = self.logJ - _lse(self.logJ, 0)[None, :, :]
+        self.Pv = np.exp(lv)                                                                   # P(v | h, a), (2^nv, 2^nh, 2^na)
+        self.pv1 = np.einsum("vha,vj->haj", self.Pv, V)                                        # P(v_j = 1 | h, a)
+        # hidden and auxiliary units are independent given v (no h-a coupling): P(h, a | v) = P(h | v) P(a | v)
+        self.T = np.einsum("vh,va,wha->vw", self.Ph, self.Pa, self.Pv)                         # exact one-step kernel
+        assert np.allclose(self.p @ self.T, self.p, rtol=0, atol=1e-10), "C02 harness: oracle kernel does not keep diag(rho)"
+
+    def cond_h(self, v):
+        return self.ph1[rows_index(v)]
+
+    def cond_a(self, v):
+        return self.pa1[rows_index(v)]
+
+    def cond_v(self, h, a):
+        return self.pv1[rows_index(h), rows_index(a)]
+
+
+class ScriptedBernoulli:
+    """For the time of one sampler call: every Bernoulli draw made through torch's Python entry points (torch.bernoulli(input
+    [, p][, out=]), Tensor.bernoulli([p]), Tensor.bernoulli_(p)) has its probability tensor recorded and its result replaced
+    by the scripted draw of the layer the call belongs to.  Layers are told apart by the number of units per chain and the
+    position in the step (hidden and auxiliary units - either first, or stacked in one call - before the visible units; where
+    hidden and auxiliary layers have the same size and both are open, by which exact conditional the probabilities are closer
+    to).  A call that cannot belong to a layer of the current step makes the run unreadable (self.reason); it and every later
+    call are then passed to torch unchanged."""
+
+    def __init__(self, orc, M, k, script, v0=None):
+        self.orc, self.M, self.k, self.script = orc, M, k, script
+        self.cur = None if v0 is None else np.asarray(v0, dtype=float)
+        self.start_drawn = v0 is not None
+        self.steps, self.open, self.reason, self.extra = [], None, None, 0
+
+    def _layer(self, P2):
+        o, m = self.orc, P2.shape[1]
+        if not self.start_drawn:
+            if m == o.nv and bool(np.all(P2 == 0.5)):
+                self.start_drawn = True
+                self.cur = self.script["v0"]
+                return [("v0", o.nv)]
+            self.reason = "the first draw of sample(k, num_samples) is not a uniform start state of num_visible units"
+            return None
+        if len(self.steps) >= self.k and self.open is None:
+            self.extra += 1
+            return None
+        if self.open is None:
+            self.open = {}
+        pend = [(n, sz) for n, sz in (("h", o.nh), ("a", o.na)) if n not in self.open]
+        if pend:
+            if len(pend) == 2 and m == o.nh + o.na:
+                dh = np.max(np.abs(P2[:, :o.nh] - o.cond_h(self.cur))) + np.max(np.abs(P2[:, o.nh:] - o.cond_a(self.cur)))
+                da = np.max(np.abs(P2[:, :o.na] - o.cond_a(self.cur))) + np.max(np.abs(P2[:, o.na:] - o.cond_h(self.cur)))
+                return [("h", o.nh), ("a", o.na)] if dh <= da else [("a", o.na), ("h", o.nh)]
+            cand = [(n, sz) for n, sz in pend if sz == m]
+            if len(cand) == 2:
+                dh = np.max(np.abs(P2 - o.cond_h(self.cur)))
+                da = np.max(np.abs(P2 - o.cond_a(self.cur)))
+                cand = [cand[0]] if dh <= da else [cand[1]]
+            if len(cand) == 1:
+                return cand
+            self.reason = ("a draw of %d units per chain in step %d while the %s layer(s) of %s units are still to be drawn"
+                           % (m, len(self.steps) + 1, "/".join(n for n, _ in pend), "/".join(str(sz) for _, sz in pend)))
+            return None
+        if m == o.nv:
+            return [("v", o.nv)]
+        self.reason = "a draw of %d units per chain in step %d where the %d visible units are due" % (m, len(self.steps) + 1, o.nv)
+        return None
+
+    def draw(self, p):
+        """p: torch tensor of probabilities (already a private copy).  Returns the scripted draw as a tensor of p's shape and
+        dtype, or None (pass through to torch)."""
+        import torch
+        if self.reason is not None:
+            return None
+        P = p.detach().to(torch.double).numpy().astype(float)
+        if P.size == 0 or P.size % self.M != 0:
+            self.reason = "a draw of shape %s cannot be read as draws for %d chains" % (list(P.shape), self.M)
+            return None
+        P2 = P.reshape(self.M, -1)
+        lay = self._layer(P2)
+        if lay is None:
+            return None
+        t = len(self.steps)
+        out, col = [], 0
+        for n, sz in lay:
+            if n == "v0":
+                D = self.script["v0"]
+            else:
+                D = self.script[n][t]
+                self.open[n] = D
+                self.open["p" + n] = P2[:, col:col + sz].copy()
+            out.append(D)
+            col += sz
+        if self.open is not None and "v" in self.open:
+            self.steps.append(dict(self.open, prev=self.cur))
+            self.cur, self.open = self.open["v"], None
+        return torch.tensor(np.concatenate(out, axis=1).reshape(P.shape), dtype=p.dtype)
+
+    def __enter__(self):
+        import torch
+        self.torch, self.orig = torch, torch.bernoulli
+        base_, base = torch.Tensor.bernoulli_, torch.Tensor.bernoulli
+        self.had = {n: torch.Tensor.__dict__.get(n) for n in ("bernoulli_", "bernoulli")}
+        spy = self
+
+        def prob_of(inp, a, k):
+            p = inp.detach().clone()
+            pa = a[0] if a and isinstance(a[0], (int, float)) else k.get("p")
+            if isinstance(pa, (int, float)) and not isinstance(pa, bool):
+                p = torch.full(tuple(p.shape), float(pa), dtype=torch.double)
+            return p
+
+        def wrapped(inp, *a, **k):
+            d = spy.draw(prob_of(inp, a, k))
+            if d is None:
+                return spy.orig(inp, *a, **k)
+            if k.get("out") is not None:
+                k["out"].copy_(d)
+                return k["out"]
+            return d.to(inp.dtype)
+
+        def wrapped_method(self_t, *a, **k):
+            d = spy.draw(prob_of(self_t, a, k))
+            return base(self_t, *a, **k) if d is None else d.to(self_t.dtype)
+
+        def wrapped_inplace(self_t, *a, **k):
+            pa = a[0] if a else k.get("p", 0.5)
+            if isinstance(pa, torch.Tensor):
+                p = pa.detach().to(torch.double).expand(tuple(self_t.shape)).clone()
+            else:
+                p = torch.full(tuple(self_t.shape), float(pa), dtype=torch.double)
+            d = spy.draw(p)
+            if d is None:
+                return base_(self_t, *a, **k)
+            with torch.no_grad():
+                self_t.copy_(d)
+            return self_t
+        torch.bernoulli, torch.Tensor.bernoulli_, torch.Tensor.bernoulli = wrapped, wrapped_inplace, wrapped_method
+        return self
+
+    def __exit__(self, *exc):
+        torch = self.torch
+        torch.bernoulli = self.orig
+        for n, old in self.had.items():
+            if old is None:
+                delattr(torch.Tensor, n)
+            else:
+                setattr(torch.Tensor, n, old)
+        return False
+
+
+def n_paths(nv, nh, na, k):
+    return (2 ** nv) * (2 ** (nh + na + nv)) ** k
+
+
+def make_script(orc, k, rows, seed, enumerate_all):
+    """The scripted draws of one run: {v0: (M, nv), h: [k x (M, nh)], a: [...], v: [...]}.  enumerate_all: one row per path of
+    the k-step chain from every start state (rows shuffled); otherwise `rows` random paths."""
+    r = np.random.default_rng(int(seed))
+    nv, nh, na = orc.nv, orc.nh, orc.na
+    if enumerate_all:
+        width = nv + k * (nh + na + nv)
+        allb = ((np.arange(2 ** width)[:, None] >> np.arange(width)[::-1]) & 1).astype(float)[r.permutation(2 ** width)]
+    else:
+        allb = r.integers(0, 2, size=(int(rows), nv + k * (nh + na + nv))).astype(float)
+    sc = {"v0": np.ascontiguousarray(allb[:, :nv]), "h": [], "a": [], "v": []}
+    col = nv
+    for _ in range(k):
+        for n, sz in (("h", nh), ("a", na), ("v", nv)):
+            sc[n].append(np.ascontiguousarray(allb[:, col:col + sz]))
+            col += sz
+    return sc
+
+
+def sampling_run(ctx, s, orc, base_case, run, idx):
+    """One call of DensityMatrix.sample / rbm_am.gibbs_steps with scripted draws; S1, S2 (every run) and S3 (enumerating runs).
+    run = {via, k, overwrite, form, rows, seed}."""
+    import torch
+    via, k, overwrite, form = run["via"], int(run["k"]), bool(run["overwrite"]), run["form"]
+    enum = form in ("enumerate", "enumerate_num_samples")
+    sc = make_script(orc, k, run.get("rows", 1), run["seed"], enum)
+    M = len(sc["v0"])
+    case = dict(base_case, run_index=idx, run=dict(run), via=via, k=k, overwrite=overwrite, start_form=form, chains=M)
+    what = "%s(k=%d%s)" % (via, k, ", num_samples=%d" % M if form == "enumerate_num_samples" else ", initial_state=<%d x %d>, overwrite=%s" % (M, orc.nv, overwrite))
+    v0 = torch.tensor(sc["v0"], dtype=torch.double)
+    torch.manual_seed(int(run["seed"]) % (2 ** 31 - 1))
+    with ScriptedBernoulli(orc, M, k, sc, v0=None if form == "enumerate_num_samples" else sc["v0"]) as spy:
+        if form == "enumerate_num_samples":
+            ok, res = ctx.call(what, case, lambda: s.sample(k, num_samples=M))
+        elif via == "sample":
+            ok, res = ctx.call(what, case, lambda: s.sample(k, initial_state=v0, overwrite=overwrite))
+        else:
+            ok, res = ctx.call(what, case, lambda: s.rbm_am.gibbs_steps(k, v0, overwrite=overwrite))
+    ctx.count("samples_from:run:%s:k=%s:%s:overwrite=%s" % (via, k if k <= 3 else "several", "one_row" if M == 1 else "many_rows", overwrite))
+    if not ok:
+        return False
+    try:
+        res2 = res.detach().to(torch.double).numpy().astype(float).reshape(M, orc.nv)
+        readable = bool(np.all((res2 == 0.0) | (res2 == 1.0)))
+    except Exception:                                     # the shape / type of the result is not this property's subject
+        readable = False
+    if spy.reason is not None or len(spy.steps) < k or not readable:
+        ctx.count("samples_from:draws_not_readable_as_k_block_steps")
+        ctx.notes.append("C02 samples-from: %s: %s" % (what, spy.reason or "fewer than k complete steps were drawn through torch's Bernoulli entry points"))
+        return None                                       # the caller decides by the statistical invariance test instead
+    if spy.extra:
+        ctx.count("samples_from:draws_after_step_k")
+    good = True
+    for t, st in enumerate(spy.steps[:k]):
+        for lay, P, E, given in (("hidden", st["ph"], orc.cond_h(st["prev"]), "visible state of step %d" % t),
+                                 ("auxiliary", st["pa"], orc.cond_a(st["prev"]), "visible state of step %d" % t),
+                                 ("visible", st["pv"], orc.cond_v(st["h"], st["a"]), "hidden and auxiliary units drawn in step %d" % (t + 1))):
+            okm = np.abs(P - E) <= SAMPLING_AT + SAMPLING_RT * np.abs(E)
+            if not bool(np.all(okm)):
+                r_ = int(np.flatnonzero(~okm.all(axis=1))[0])
+                det = {"call": what, "step": t + 1, "of": k, "layer": lay, "chain (row of the batch)": r_,
+                       "start state of the chain": sc["v0"][r_].tolist(), "visible state before the step": st["prev"][r_].tolist(),
+                       "hidden drawn in the step": st["h"][r_].tolist(), "auxiliary drawn in the step": st["a"][r_].tolist(),
+                       "Bernoulli probabilities used": P[r_].tolist(), "exact conditional": E[r_].tolist(),
+                       "chains with a wrong probability": int((~okm.all(axis=1)).sum()), "of chains": M}
+                if lay == "visible" and t > 0:
+                    det["auxiliary drawn in EARLIER steps"] = [spy.steps[u]["a"][r_].tolist() for u in range(t)]
+                good &= ctx.require("samples from: the %s units in a block-Gibbs step of sample / gibbs_steps are drawn with the exact conditional "
+                                    "of the purified joint distribution (whose visible marginal is diag(rho)) given the %s"
+                                    % (lay, "current visible state" if lay != "visible" else "hidden and auxiliary units just drawn"),
+                                    False, case, det)
+                break
+        if not good:
+            break
+    if enum:
+        # law of the RETURNED sample given the start state, from the observed probabilities of every path
+        w = np.ones(M)
+        for st in spy.steps[:k]:
+            for nm in ("h", "a", "v"):
+                D, P = st[nm], st["p" + nm]
+                w = w * np.prod(np.where(D == 1.0, P, 1.0 - P), axis=1)
+        N = 2 ** orc.nv
+        K = np.zeros((N, N))
+        np.add.at(K, (rows_index(sc["v0"]), rows_index(res2)), w)
+        if form == "enumerate_num_samples":
+            pass                                          # the start draw itself is uniform: K is still the law given the start
+        pK = orc.p @ K
+        dev = float(np.max(np.abs(pK - orc.p)))
+        _measure("samples_from_invariance", dev / 1e-9)
+        good &= ctx.require("samples from: diag(rho) / trace(rho) is invariant under the k-step law of sample / gibbs_steps built from the "
+                            "Bernoulli probabilities the sampler used on every path (started in the reported distribution the samples "
+                            "follow the reported distribution)", dev <= 1e-9, case,
+                            {"call": what, "k": k, "paths (one chain each)": M, "diag(rho)/trace(rho)": orc.p.tolist(), "after k steps": pK.tolist(),
+                             "max deviation": dev, "row sums of the observed k-step law": K.sum(1).tolist(),
+                             "exact k-step law keeps it to": float(np.max(np.abs(orc.p @ np.linalg.matrix_power(orc.T, k) - orc.p)))})
+        ctx.count("samples_from:k_step_law_built_from_observed_probabilities")
+    ctx.traces += 1
+    return good
+
+
+def invariance_by_statistics(ctx, s, orc, base_case, k, seed, n=200000):
+    """Fallback when the draws could not be observed: n independent chains started in diag(rho)/trace(rho) (stratified: round(n
+    p_i) chains in basis state i), k steps through DensityMatrix.sample; the empirical law of the result must be within the
+    Hoeffding radius for a failure probability of 1e-9 per cell (+ the stratification rounding) of diag(rho)/trace(rho)."""
+    import torch
+    cnt = np.floor(orc.p * n + 0.5).astype(int)
+    start = np.repeat(orc.V, cnt, axis=0)
+    n_eff = len(start)
+    case = dict(base_case, via="sample", k=k, torch_seed=int(seed), chains=n_eff, decided_by="statistics")
+    torch.manual_seed(int(seed))
+    ok, res = ctx.call("sample(k=%d, initial_state=<%d chains started in diag(rho)/trace(rho)>)" % (k, n_eff), case,
+                       lambda: s.sample(k, initial_state=torch.tensor(start, dtype=torch.double)))
+    if not ok:
+        return
+    try:
+        idx = rows_index(res.detach().to(torch.double).numpy().reshape(n_eff, orc.nv))
+        emp = np.bincount(idx, minlength=2 ** orc.nv)[: 2 ** orc.nv] / n_eff
+    except Exception:
+        ctx.count("samples_from:statistical_result_unreadable")
+        return
+    eps = math.sqrt(math.log(2.0 / 1e-9) / (2.0 * n_eff)) + (2 ** orc.nv) / n_eff
+    dev = float(np.max(np.abs(emp - orc.p)))
+    ctx.require("samples from (statistical): %d chains started in diag(rho)/trace(rho) follow diag(rho)/trace(rho) after k steps of sample" % n_eff,
+                dev <= eps, case, {"k": k, "empirical": emp.tolist(), "diag(rho)/trace(rho)": orc.p.tolist(), "max deviation": dev,
+                                   "Hoeffding radius (failure probability 1e-9 per cell)": eps})
+    ctx.count("samples_from:decided_by_statistics")
+    # ... and the chain is THE block-Gibbs chain of the purified joint distribution (invariance alone also holds for a chain that
+    # does not converge to diag(rho), e.g. one that keeps a latent layer fixed): k-step law from every basis state vs the exact T^k
+    per, N = 100000, 2 ** orc.nv
+    case2 = dict(case, chains=per * N, torch_seed=int(seed) + 1)
+    torch.manual_seed(int(seed) + 1)
+    ok, res = ctx.call("sample(k=%d, initial_state=<%d chains from each basis state>)" % (k, per), case2,
+                       lambda: s.sample(k, initial_state=torch.tensor(np.repeat(orc.V, per, axis=0), dtype=torch.double)))
+    if not ok:
+        return
+    try:
+        idx = rows_index(res.detach().to(torch.double).numpy().reshape(per * N, orc.nv)).reshape(N, per)
+        emp = np.stack([np.bincount(idx[i], minlength=N)[:N] / per for i in range(N)])
+    except Exception:
+        ctx.count("samples_from:statistical_result_unreadable")
+        return
+    Tk = np.linalg.matrix_power(orc.T, k)
+    eps = math.sqrt(math.log(2.0 / 1e-9) / (2.0 * per))
+    dev = np.abs(emp - Tk)
+    i, j = (int(t) for t in np.unravel_index(np.argmax(dev), dev.shape))
+    ctx.require("samples from (statistical): the law of sample(k) from each basis state is the k-step law of the block-Gibbs chain of the "
+                "purified joint distribution (the chain that converges to diag(rho)/trace(rho))", float(dev.max()) <= eps, case2,
+                {"k": k, "start state": orc.V[i].tolist(), "empirical law": emp[i].tolist(), "exact k-step law": Tk[i].tolist(),
+                 "max deviation": float(dev.max()), "at result": orc.V[j].tolist(), "Hoeffding radius (failure probability 1e-9 per cell)": eps})
+
+
+def sampling_plan(nv, nh, na, ks, seed, limit, light=False):
+    """The runs on ONE object for one parameter setting: the FIRST run of a fresh object is already a k >= 2 run where possible;
+    k = 1, 2, 3, several; sample and gibbs_steps; overwrite both ways; one-row (1, nv) and many-row batches; every k with
+    few enough paths is enumerated (S3), the others get random paths (S1, S2); the object ages from run to run, and the
+    k = 2 / 3 enumerations are repeated at the end on the aged object."""
+    r = np.random.default_rng(int(seed))
+    sd = lambda: int(r.integers(0, 2 ** 31 - 1))          # noqa: E731
+    runs = []
+    order = [k for k in ks if k >= 2] + [k for k in ks if k < 2]
+    for i, k in enumerate(order):
+        enum = n_paths(nv, nh, na, k) <= limit
+        via = ("sample", "gibbs_steps")[(i + seed) % 2]
+        other = ("gibbs_steps", "sample")[(i + seed) % 2]
+        ow = bool((i + seed // 2) % 2)
+        if enum:
+            runs.append({"via": via, "k": k, "overwrite": ow, "form": "enumerate", "seed": sd()})
+            if not light:
+                runs.append({"via": other, "k": k, "overwrite": not ow, "form": "enumerate", "seed": sd()})
+        else:
+            runs.append({"via": via, "k": k, "overwrite": ow, "form": "random_rows", "rows": 257, "seed": sd()})
+            runs.append({"via": other, "k": k, "overwrite": not ow, "form": "random_rows", "rows": 64, "seed": sd()})
+        for j in range(2 if light else 4):                # one-row batches, both entry points, overwrite both ways
+            runs.append({"via": ("sample", "gibbs_steps")[j % 2], "k": k, "overwrite": bool((j // 2 + i) % 2), "form": "one_row", "rows": 1, "seed": sd()})
+    enumerable = [k for k in order if k >= 2 and n_paths(nv, nh, na, k) <= limit]
+    for k in enumerable[:2]:                              # aged object: after all the runs above
+        runs.append({"via": "sample", "k": k, "overwrite": False, "form": "enumerate_num_samples", "seed": sd()})
+        runs.append({"via": "gibbs_steps", "k": k, "overwrite": True, "form": "enumerate", "seed": sd()})
+    return runs
+
+
+def sampling_case(ctx, spec):
+    """spec = {nv, nh, na, ctor_seed, construct, settings: [{am, ph, way, regime}], runs: [[run, ...] per setting]}: ONE
+    DensityMatrix object; for each parameter setting (the first written into the fresh object, the later ones in place into
+    the aged one) the planned sampler runs.  Everything is determined by spec (replayable)."""
+    nv, nh, na = int(spec["nv"]), int(spec["nh"]), int(spec["na"])
+    s, how = construct_state(ctx, nv, nh, na, spec.get("construct") or "sizes", int(spec["ctor_seed"]))
+    unreadable = False
+    for si, (st, runs) in enumerate(zip(spec["settings"], spec["runs"])):
+        am = tuple(np.asarray(x, dtype=float) for x in st["am"])
+        ph = tuple(np.asarray(x, dtype=float) for x in st["ph"])
+        for net, pr in (("rbm_am", am), ("rbm_ph", ph)):
+            write_params(getattr(s, net), pr, st.get("way") or "data_copy_")
+        orc = JointOracle(am, ph)
+        nontriv = bool(np.all(am[1] != 0) and np.all(am[4] != 0) and all(np.all(x != 0) for x in (am[2], am[3])))
+        ctx.case({"part": "samples_from", "nv": nv, "nh": nh, "na": na, "setting": si, "U_am00": float(am[1][0, 0]), "d_am0": float(am[4][0]),
+                  "ks": sorted({int(r["k"]) for r in runs})}, nontrivial=nontriv)
+        ctx.count("samples_from:setting:%s" % ("fresh_object" if si == 0 else "rewritten_in_place_on_the_aged_object"))
+        base = {"part": "samples_from", "regime": st.get("regime"), "nv": nv, "nh": nh, "na": na, "am": gen.plist(*am), "ph": gen.plist(*ph),
+                "setting": si, "sampling_spec": spec}
+        for idx, run in enumerate(runs):
+            out = sampling_run(ctx, s, orc, base, run, idx)
+            if out is None:
+                unreadable = True
+                break
+            if out is False and len(ctx.failures) >= 6:
+                return
+        if unreadable:
+            for k in sorted({int(r["k"]) for r in runs if int(r["k"]) >= 1})[:3]:
+                invariance_by_statistics(ctx, s, orc, base, k, seed=int(spec["ctor_seed"]) + 17 * k)
+            return
+
+
+def plist_spec(am, ph):
+    return {"am": gen.plist(*am), "ph": gen.plist(*ph)}
+
+
+def fixed_sampling_cases(ctx):
+    """Run before everything else: 2 visible units, 1-2 hidden, 1-2 auxiliary, k = 2 and k = 3 FIRST on the fresh object (then 1
+    and 4), every path enumerated where there are at most 140000; deterministic parameters with sizeable visible-auxiliary
+    weights and every bias non-zero; a second setting written in place into the aged object."""
+    nz = lambda x: np.where(np.abs(x) < 0.05, 0.37, x)      # noqa: E731
+    for i, (nv, nh, na, ks) in enumerate([(2, 1, 1, (2, 3, 1, 4)), (2, 2, 1, (2, 3, 1)), (2, 1, 2, (3, 2, 1)), (2, 2, 2, (2, 3, 1, 5))]):
+        settings = []
+        for j in range(2):
+            q = 11 * i + 5 * j
+            am = (nz(_det((nh, nv), -1.5, 1.5, q)), nz(_det((na, nv), -2.0, 2.0, q + 1)), nz(_det((nv,), -1.0, 1.0, q + 2)),
+                  nz(_det((nh,), -1.5, 1.5, q + 3)), nz(_det((na,), -1.5, 1.5, q + 4)))
+            ph = (_det((nh, nv), -2.0, 2.0, q + 5), _det((na, nv), -2.0, 2.0, q + 6), nz(_det((nv,), -2.0, 2.0, q + 7)),
+                  nz(_det((nh,), -2.0, 2.0, q + 8)), np.zeros(na))
+            settings.append(dict(plist_spec(am, ph), way=["init", "data_copy_"][j], regime="samples_from_fixed"))
+        runs = [sampling_plan(nv, nh, na, ks, 100 + 7 * i + j, ENUM_LIMIT_FIXED, light=(j == 1)) for j in range(2)]
+        sampling_case(ctx, {"nv": nv, "nh": nh, "na": na, "ctor_seed": 4242 + i, "construct": "sizes", "settings": settings, "runs": runs})
+
+
+SAMPLING_SHAPES_QUICK = [(1, 1, 1), (2, 1, 2), (1, 2, 1), (2, 2, 1), (3, 1, 1), (2, 3, 1), (1, 1, 3), (3, 2, 2), (2, 1, 1), (3, 1, 2)]
+
+
+def random_sampling_cases(ctx):
+    """The random stream of the samples-from relation: architectures 1..3 (quick, + one with a size-4 layer per seed) / a draw
+    from all 64 (thorough), parameter regimes default / large_bias in rotation, construction paths in rotation, k = 1, 2, 3 and
+    one `several` (4..9) per case, a second parameter setting written in place into the aged object."""
+    if ctx.thorough:
+        shp = SAMPLING_SHAPES_QUICK + [ALL_SHAPES[int(t)] for t in ctx.rng.choice(len(ALL_SHAPES), size=30, replace=False)]
+    else:
+        with4 = [t for t in ALL_SHAPES if 4 in t]
+        shp = SAMPLING_SHAPES_QUICK + [with4[int(ctx.rng.integers(0, len(with4)))]]
+    limit = ENUM_LIMIT_FIXED if ctx.thorough else ENUM_LIMIT_QUICK
+    r0 = int(ctx.rng.integers(0, 1 << 16))
+    for i, (nv, nh, na) in enumerate(shp):
+        ks = (2, 3, 1, int(ctx.rng.integers(4, 10)))
+        settings = []
+        for j in range(2):
+            regime = ["default", "large_bias"][(i + j + r0) % 2]
+            am, ph = draw_params(ctx, nv, nh, na, regime)
+            settings.append(dict(plist_spec(am, ph), regime=regime,
+                                 way="init" if j == 0 else ["data_copy_", "no_grad_copy_", "rebind_parameter", "load_state_dict"][(i + r0) % 4]))
+        runs = [sampling_plan(nv, nh, na, ks if j == 0 else ks[:2], int(ctx.rng.integers(0, 2 ** 31 - 1)), limit, light=True) for j in range(2)]
+        sampling_case(ctx, {"nv": nv, "nh": nh, "na": na, "ctor_seed": int(ctx.rng.integers(0, 2 ** 31 - 1)),
+                            "construct": CONSTRUCT[(i + r0) % len(CONSTRUCT)], "settings": settings, "runs": runs})
+
+
 def run(ctx):
+    # first of all: what the model SAMPLES FROM (fixed k = 2 / k = 3 cases on 2 visible units, then the random stream)
+    fixed_sampling_cases(ctx)
+    random_sampling_cases(ctx)
     # fixed cases that always run first: same-object histories with every mutation operator, then all four in-place ways of
     # rewriting the parameters with batches of more than 65536 rows
     all_architectures(ctx)
@@ -1410,6 +1909,14 @@ def search(ctx, broken, budget):
 
 def replay(ctx, rec):
     case = rec.get("failing", {}).get("case") or {}
+    if case.get("part") == "samples_from" and case.get("sampling_spec"):
+        sp = case["sampling_spec"]
+        print("replay of the samples-from relation: DensityMatrix nv=%d nh=%d na=%d, %d parameter settings, %s sampler runs on one object"
+              % (sp["nv"], sp["nh"], sp["na"], len(sp["settings"]), [len(r) for r in sp["runs"]]))
+        sampling_case(ctx, sp)
+        for f in ctx.failures[:5]:
+            print("FAILS:", f["what"], f["detail"][:400])
+        return
     if not (all(k in case for k in ("nv", "nh", "na")) and (case.get("history") or all(k in case for k in ("am", "ph")))):
         print("replay record has no density-matrix case; running the generated cases")
         run(ctx)
